@@ -62,7 +62,10 @@ func kfKeyExisting(e sk.ExistingDump) string {
 const kfUndefinedLabel = "existing-node-undefined-label-after-notin"
 
 func runWorld(c *kit.Ctx, r *kit.Rand, idx int) {
-	w := sk.Gen(r, sk.GenOpts{Thorough: c.Thorough()})
+	// every third world carries no pod (anti-)affinity / topology spread: Solve is then deterministic up to map order
+	// and is used for the comparison across degrees of parallelism
+	noTopo := idx%3 == 0
+	w := sk.Gen(r, sk.GenOpts{Thorough: c.Thorough(), NoTopology: noTopo})
 	sk.BindDaemonPods(r, w)
 	cfg := sk.RunCfg{Workers: 1, IgnorePreferences: idx%2 == 1, BestEffortMinValues: (idx/2)%2 == 1}
 	out, err := sk.Run(w, cfg)
@@ -77,7 +80,7 @@ func runWorld(c *kit.Ctx, r *kit.Rand, idx int) {
 	for _, cd := range d.Claims {
 		c.Count(fmt.Sprintf("B.claim.pods=%d", min(len(cd.Pods), 4)))
 		c.Count(fmt.Sprintf("B.claim.options=%d", min(len(cd.Options), 6)))
-		term := fmt.Sprintf("(BNew %s %s %s %s %s %s)", kit.GStrs(d.WellKnown), gReqs(cd.Reqs), kit.GListOf(cd.Taints, gTaint), kit.GListOf(cd.Options, gOpt),
+		term := fmt.Sprintf("(BNew %s %s %s %s %s %s)", gWK(d.WellKnown), gReqs(cd.Reqs), kit.GListOf(cd.Taints, gTaint), kit.GListOf(cd.Options, gOpt),
 			kit.GListOf(cd.Pods, gPod), kit.GListOf(d.Daemons, gPod))
 		in := map[string]interface{}{"kind": "Solve/new-nodeclaim", "config": cfg, "claim": cd, "daemons": d.Daemons}
 		raw, _ := json.Marshal(cd)
@@ -98,6 +101,9 @@ func runWorld(c *kit.Ctx, r *kit.Rand, idx int) {
 	}
 	// every degree of candidate-evaluation parallelism must give the same projected result
 	base := d.Assignment()
+	if !noTopo {
+		return
+	}
 	for _, workers := range []int{4, 16} {
 		cfg2 := cfg
 		cfg2.Workers = workers
@@ -108,12 +114,18 @@ func runWorld(c *kit.Ctx, r *kit.Rand, idx int) {
 		}
 		if a2 := out2.Dump.Assignment(); !reflect.DeepEqual(base, a2) {
 			// rule out run-to-run non-determinism (map order, random domain choice) before blaming parallelism
-			again, _ := sk.Run(w, cfg)
-			if again != nil && reflect.DeepEqual(base, again.Dump.Assignment()) {
+			stable := true
+			for k := 0; k < 3 && stable; k++ {
+				again, _ := sk.Run(w, cfg)
+				stable = again != nil && reflect.DeepEqual(base, again.Dump.Assignment())
+			}
+			if stable {
 				c.Fail(c.NextID(), fmt.Sprintf("Solve with %d workers differs from 1 worker", workers), "", map[string]interface{}{"kind": "Solve/parallelism", "workers": workers, "one": base, "many": a2, "world_index": idx})
 			} else {
 				c.Count("B.nondeterministic-world")
 			}
+		} else {
+			c.Count(fmt.Sprintf("B.workers=%d-agrees-with-1", workers))
 		}
 	}
 }
@@ -125,7 +137,7 @@ func main() {
 	c.Meta.Corr = []string{"Taints.ToleratesPod", "HostPortUsage.Conflicts", "resources.Fits", "NewPodRequirements/NewStrictPodRequirements",
 		"Preferences.Relax", "NewExistingNode.remainingResources", "filterInstanceTypesByRequirements", "NodeClaim.CanAdd/Add", "ExistingNode.CanAdd/Add",
 		"Scheduler.Solve placements vs admissibility oracle (1/4/16 workers agree)"}
-	nUnit, nNC, nEX, nWorlds := 250, 300, 150, 160
+	nUnit, nNC, nEX, nWorlds := 200, 160, 100, 120
 	if c.Thorough() {
 		nUnit, nNC, nEX, nWorlds = 1500, 2500, 1000, 1500
 	}
@@ -171,7 +183,7 @@ func main() {
 			"goroutine interleavings inside parallelizeUntil are exercised (1/4/16 workers) but not modelled",
 			"expected daemons of the oracle: every daemonset that may run for some labelling the node can get (per-key over-approximation)",
 		}}
-	c.Finish("From KV Require Import C01.Model C01.Check.", "case", "check_all", 250)
+	c.Finish("From KV Require Import C01.Model C01.Check.\n"+internHeader(), "case", "check_all", 100)
 }
 
 func debugWorld(r *kit.Rand) {
